@@ -330,7 +330,7 @@ func cmdCheck(args []string) int {
 			budget = h.ThoroughS
 		}
 		cfg := gx.Config{Prog: prog, Entry: f, Tier: tier, SolverBin: *solver, Workers: *workers,
-			ModulePath: modulePath, MaxPaths: h.MaxPaths, Known: activeKnown, StrMax: h.StrMax, MaxSteps: h.MaxSteps}
+			ModulePath: modulePath, MaxPaths: h.MaxPaths, Known: activeKnown, StrMax: h.StrMax, MaxSteps: h.MaxSteps, OrderInsensitive: orderLemmas()}
 		if budget > 0 {
 			cfg.Deadline = time.Now().Add(time.Duration(budget) * time.Second)
 		}
@@ -588,4 +588,15 @@ func cmdReplay(args []string) int {
 		return 1
 	}
 	return 0
+}
+
+// orderLemmas: functions whose observable result does not depend on the order in which they range over
+// a map.  Each is PROVED order-insensitive (all orders explored, result compared) by the harness
+// VerifOrderLemmas of its package, which every check relying on the reduction runs first.
+func orderLemmas() map[string]bool {
+	return map[string]bool{
+		"(github.com/Comcast/sheens/match.Bindings).Copy": true,
+		"github.com/Comcast/sheens/match.copyMap":         true,
+		"(github.com/Comcast/sheens/core.StepProps).Copy": true,
+	}
 }
